@@ -11,6 +11,7 @@ import (
 	"path/filepath"
 	"sort"
 	"strings"
+	"sync"
 
 	"golang.org/x/tools/go/ssa"
 )
@@ -119,23 +120,64 @@ func nativeReplay(eng *Engine, cases []Finding) ([]ReplayOut, error) {
 		cb, _ := json.Marshal(sub)
 		cf := filepath.Join(tmp, "cases.json")
 		os.WriteFile(cf, cb, 0o644)
-		cmd := exec.Command("go", "test", "-v", "-vet=off", "-count=1", "-timeout", "300s", "-run", "^TestVerifReplay$", "-overlay", ovf, spec.importPath())
-		cmd.Dir = repoDir
-		cmd.Env = append(goEnv(), "VERIF_REPLAY_FILE="+cf)
-		out, err := cmd.CombinedOutput()
-		sc := bufio.NewScanner(bytes.NewReader(out))
-		sc.Buffer(make([]byte, 1<<20), 1<<24)
+		// one test binary per package, one process per case: a case must not see the package-level state (caches,
+		// pools) another case left behind
+		bin := filepath.Join(tmp, "replay.test")
+		build := exec.Command("go", "test", "-c", "-vet=off", "-o", bin, "-overlay", ovf, spec.importPath())
+		build.Dir = repoDir
+		build.Env = goEnv()
+		if bout, berr := build.CombinedOutput(); berr != nil {
+			tail := string(bout)
+			if len(tail) > 3000 {
+				tail = tail[len(tail)-3000:]
+			}
+			return outs, fmt.Errorf("replay build of package %s failed: %v: %s", key, berr, tail)
+		}
 		got := 0
-		for sc.Scan() {
-			l := sc.Text()
-			if j := strings.Index(l, "VERIF-OUT "); j >= 0 {
-				var o ReplayOut
-				if json.Unmarshal([]byte(l[j+10:]), &o) == nil && o.Index < len(idxs) {
-					gi := idxs[o.Index]
-					o.Index = gi
-					outs[gi] = o
-					got++
+		var out []byte
+		err = nil
+		type res struct {
+			o  ReplayOut
+			ok bool
+			b  []byte
+			e  error
+		}
+		results := make([]res, len(idxs))
+		sem := make(chan struct{}, 8)
+		var wg sync.WaitGroup
+		for k := range idxs {
+			wg.Add(1)
+			sem <- struct{}{}
+			go func(k int) {
+				defer wg.Done()
+				defer func() { <-sem }()
+				cmd := exec.Command(bin, "-test.run", "^TestVerifReplay$", "-test.v", "-test.timeout", "300s")
+				cmd.Dir = dir
+				cmd.Env = append(goEnv(), "VERIF_REPLAY_FILE="+cf, fmt.Sprintf("VERIF_REPLAY_INDEX=%d", k))
+				o, e := cmd.CombinedOutput()
+				results[k].b, results[k].e = o, e
+				sc := bufio.NewScanner(bytes.NewReader(o))
+				sc.Buffer(make([]byte, 1<<20), 1<<24)
+				for sc.Scan() {
+					l := sc.Text()
+					if j := strings.Index(l, "VERIF-OUT "); j >= 0 {
+						var ro ReplayOut
+						if json.Unmarshal([]byte(l[j+10:]), &ro) == nil && ro.Index == k {
+							results[k].o, results[k].ok = ro, true
+						}
+					}
 				}
+			}(k)
+		}
+		wg.Wait()
+		for k, r := range results {
+			if r.ok {
+				gi := idxs[k]
+				r.o.Index = gi
+				outs[gi] = r.o
+				got++
+			} else {
+				out, err = r.b, r.e
 			}
 		}
 		if got < len(idxs) {
